@@ -198,6 +198,7 @@ func (fr *Frame) val(v ssa.Value) Val {
 		if isAggregate(t) {
 			return Val{T: x.Type(), C: []string{vc.globalAddr(gv)}}
 		}
+		vc.globalInitFacts(gv)
 		return Val{T: x.Type(), C: []string{"0"}, Loc: &Loc{Kind: LocGlobal, Key: "G:" + gv.Pkg().Name() + "." + gv.Name(), T: t}}
 	case *ssa.Function:
 		id := vc.fresh("fn_"+x.Name(), "Int")
@@ -608,12 +609,14 @@ func (fr *Frame) loopHead(li *loopInfo, st *State, cond string) *State {
 	env := fr.localEnv(st)
 	env.entry = li.entrySt
 	for _, c := range invs {
-		t, err := env.EvalBool(c.E)
-		if err != nil {
-			fr.specError(c, err)
-			continue
+		for _, part := range splitConj(c.E) {
+			t, err := env.EvalBool(part)
+			if err != nil {
+				fr.specError(c, err)
+				continue
+			}
+			vc.oblige("inv", top.oblFn, fr.oblName(fmt.Sprintf("loop%d-inv-entry", li.ordinal)), cond, t, fr.pos(hpos), part.String())
 		}
-		vc.oblige("inv", top.oblFn, fr.oblName(fmt.Sprintf("loop%d-inv-entry", li.ordinal)), cond, t, fr.pos(hpos), c.Text)
 	}
 	// 2. havoc what the loop may modify
 	ns := st.Clone()
@@ -701,12 +704,14 @@ func (fr *Frame) backEdgeCheck(li *loopInfo, cond string, st *State, from *ssa.B
 	env := fr.localEnv(st)
 	env.entry = li.entrySt
 	for _, c := range invs {
-		t, err := env.EvalBool(c.E)
-		if err != nil {
-			fr.specError(c, err)
-			continue
+		for _, part := range splitConj(c.E) {
+			t, err := env.EvalBool(part)
+			if err != nil {
+				fr.specError(c, err)
+				continue
+			}
+			vc.oblige("inv", top.oblFn, fr.oblName(fmt.Sprintf("loop%d-inv-preserved", li.ordinal)), cond, t, fr.pos(pos), part.String())
 		}
-		vc.oblige("inv", top.oblFn, fr.oblName(fmt.Sprintf("loop%d-inv-preserved", li.ordinal)), cond, t, fr.pos(pos), c.Text)
 	}
 	if li.variant != "" {
 		v, err := env.Eval(li.spec.Decreases.E, nil)
@@ -866,8 +871,8 @@ func (fr *Frame) instr(st *State, ins ssa.Instruction) {
 		iv := fr.toIdx(fr.val(x.Index))
 		switch u := base.T.Underlying().(type) {
 		case *types.Basic: // string
-			fr.safety("index", cond, andAll(vc.ile(vc.idx(0), iv), vc.ilt(iv, "(str.len "+base.C[0]+")")), x.Pos(), "string index out of range")
-			fr.regs[x] = Val{T: x.Type(), C: []string{"(str.at " + base.C[0] + " " + iv + ")"}}
+			fr.safety("index", cond, andAll(vc.ile(vc.idx(0), iv), vc.ilt(iv, "(gs.len "+base.C[0]+")")), x.Pos(), "string index out of range")
+			fr.regs[x] = Val{T: x.Type(), C: []string{"(gs.at " + base.C[0] + " " + iv + ")"}}
 		case *types.Array:
 			addr := base.Addr
 			if addr == "" {
@@ -906,8 +911,8 @@ func (fr *Frame) instr(st *State, ins ssa.Instruction) {
 		base := fr.val(x.X)
 		if isString(base.T) {
 			iv := fr.toIdx(fr.val(x.Index))
-			fr.safety("index", cond, andAll(vc.ile(vc.idx(0), iv), vc.ilt(iv, "(str.len "+base.C[0]+")")), x.Pos(), "string index out of range")
-			fr.regs[x] = Val{T: x.Type(), C: []string{"(str.at " + base.C[0] + " " + iv + ")"}}
+			fr.safety("index", cond, andAll(vc.ile(vc.idx(0), iv), vc.ilt(iv, "(gs.len "+base.C[0]+")")), x.Pos(), "string index out of range")
+			fr.regs[x] = Val{T: x.Type(), C: []string{"(gs.at " + base.C[0] + " " + iv + ")"}}
 			break
 		}
 		nv := vc.freshVal(x.Name(), x.Type())
@@ -1106,7 +1111,7 @@ func (fr *Frame) convert(st *State, x *ssa.Convert) {
 	case fnum && tnum:
 		fr.regs[x] = Val{T: to, C: []string{vc.define(x.Name(), vc.sort1(to), vc.convertNum(v.C[0], from, to))}}
 	case isString(to) && fnum:
-		fr.regs[x] = Val{T: to, C: []string{vc.ufun("str.fromrune", []string{vc.sort1(from)}, "Str", v.C[0])}}
+		fr.regs[x] = Val{T: to, C: []string{vc.ufun("gs.fromrune", []string{vc.sort1(from)}, "Str", v.C[0])}}
 	case isString(to):
 		if sl, ok := from.Underlying().(*types.Slice); ok {
 			if b, ok := sl.Elem().Underlying().(*types.Basic); ok && b.Kind() == types.Uint8 {
@@ -1120,11 +1125,12 @@ func (fr *Frame) convert(st *State, x *ssa.Convert) {
 		if sl, ok := to.Underlying().(*types.Slice); ok {
 			if b, ok := sl.Elem().Underlying().(*types.Basic); ok && b.Kind() == types.Uint8 {
 				arr := vc.allocRef(st, "strbytes")
-				n := "(str.len " + v.C[0] + ")"
-				// contents: forall i. 0<=i<n => E[arr][i] == str.at(s,i)
+				n := "(gs.len " + v.C[0] + ")"
+				// contents: forall i. 0<=i<n => E[arr][i] == gs.at(s,i)
 				a := vc.fresh("strarr", "(Array "+vc.idxSort()+" "+vc.isort(8)+")")
-				vc.axiom("(forall ((i " + vc.idxSort() + ")) (! (=> (and " + vc.ile(vc.idx(0), "i") + " " + vc.ilt("i", n) + ") (= (select " + a + " i) (str.at " + v.C[0] + " i))) :pattern ((select " + a + " i))))")
+				vc.axiom("(forall ((i " + vc.idxSort() + ")) (! (=> (and " + vc.ile(vc.idx(0), "i") + " " + vc.ilt("i", n) + ") (= (select " + a + " i) (gs.at " + v.C[0] + " i))) :pattern ((select " + a + " i))))")
 				vc.setElemArray(st, sl.Elem(), arr, a)
+				vc.strOfArr[a] = v.C[0]
 				fr.regs[x] = Val{T: to, C: []string{arr, vc.idx(0), n, n}}
 				return
 			}
@@ -1292,7 +1298,7 @@ func (fr *Frame) slice(st *State, x *ssa.Slice) {
 		arr := base.C[0]
 		fr.regs[x] = Val{T: x.Type(), C: []string{arr, vc.iadd(base.C[1], lo), vc.isub(hi, lo), vc.isub(cp, lo)}}
 	case *types.Basic:
-		n := "(str.len " + base.C[0] + ")"
+		n := "(gs.len " + base.C[0] + ")"
 		hi := n
 		if x.High != nil {
 			hi = vc.define("hi", vc.idxSort(), fr.toIdx(fr.val(x.High)))
@@ -1316,12 +1322,12 @@ func (fr *Frame) slice(st *State, x *ssa.Slice) {
 
 func (vc *VC) strSub(s, lo, hi string) string {
 	i := vc.idxSort()
-	if _, ok := vc.decls["str.sub"]; !ok {
-		vc.declare("str.sub", "(declare-fun str.sub (Str "+i+" "+i+") Str)")
-		vc.axiom("(forall ((s Str) (a " + i + ") (b " + i + ")) (! (=> (and " + vc.ile(vc.idx(0), "a") + " " + vc.ile("a", "b") + " " + vc.ile("b", "(str.len s)") + ") (= (str.len (str.sub s a b)) " + vc.isub("b", "a") + ")) :pattern ((str.sub s a b))))")
-		vc.axiom("(forall ((s Str) (a " + i + ") (b " + i + ") (k " + i + ")) (! (=> (and " + vc.ile(vc.idx(0), "k") + " " + vc.ilt("k", vc.isub("b", "a")) + ") (= (str.at (str.sub s a b) k) (str.at s " + vc.iadd("a", "k") + "))) :pattern ((str.at (str.sub s a b) k))))")
+	if _, ok := vc.decls["gs.sub"]; !ok {
+		vc.declare("gs.sub", "(declare-fun gs.sub (Str "+i+" "+i+") Str)")
+		vc.axiom("(forall ((s Str) (a " + i + ") (b " + i + ")) (! (=> (and " + vc.ile(vc.idx(0), "a") + " " + vc.ile("a", "b") + " " + vc.ile("b", "(gs.len s)") + ") (= (gs.len (gs.sub s a b)) " + vc.isub("b", "a") + ")) :pattern ((gs.sub s a b))))")
+		vc.axiom("(forall ((s Str) (a " + i + ") (b " + i + ") (k " + i + ")) (! (=> (and " + vc.ile(vc.idx(0), "k") + " " + vc.ilt("k", vc.isub("b", "a")) + ") (= (gs.at (gs.sub s a b) k) (gs.at s " + vc.iadd("a", "k") + "))) :pattern ((gs.at (gs.sub s a b) k))))")
 	}
-	return "(str.sub " + s + " " + lo + " " + hi + ")"
+	return "(gs.sub " + s + " " + lo + " " + hi + ")"
 }
 
 // guardedAccess: C10 guarded-by obligation at a field access.
